@@ -148,7 +148,7 @@ class C02(Prop):
     id = "C02"
     props_file = "Props/C02.v"
     # redundant tie (core.gen_tie): these decision functions, translated from the source on every run, equal the hand model for all inputs
-    gen_tie_theorems = ['GenTie_is_matchable', 'GenTie_is_label_correct']
+    gen_tie_theorems = ['GenTie_is_matchable', 'GenTie_is_label_correct', 'GenTie__get_matching_module', 'GenTie__get_fp_object_results', 'GenTie__get_score_table', 'GenTie_best_cell', 'GenTie_get_object_results', 'GenTie_get_object_results_outside', 'GenTie_get_object_results_facts']
     gen_files = []
     design_ref = "DESIGN.md section 4, C02"
     technique = ("Coq proof by refinement: the executable model of the two matching loops (row-major first-best arg-min/arg-max with "
@@ -167,7 +167,9 @@ class C02(Prop):
                   "matching classes. With ties the result depends on numpy's first-occurrence rule, which the model reproduces and the "
                   "correspondence checks; the theorems about blocking pairs hold with ties as well.")
     rule = ("as C01 with the 'contested' flavour (2-3 labels, tight clusters) for ~70 % of the scenes; non-trivial = some ground truth has >= 2 "
-            "matchable candidates and at least one pair is formed; plus the manager path of C01 (configured policy / radii reach the matcher; "
+            "matchable candidates and at least one pair is formed; every eighth small / mid scene carries C01's anti-diagonal tie block (4 estimates of one "
+            "label around 3 ground truths of another: a second stage with >= 3 left-over estimates, tied cells (i, j) = (i+1, j-1), a contested ground "
+            "truth); plus the manager path of C01 (one-number radii incl. 0 / 0.0, earlier frames through the same manager, tie blocks) (configured policy / radii reach the matcher; "
             "3D and 2D-ROI evaluators, tracking tasks, target uuids); 'matchable' in the blocking-pair predicate and in the independent greedy is "
             "recomputed from the case (frames / labels as built, radius at the index of the ground truth's label, strict comparison), and the "
             "library's own matchable table is compared with it cell by cell")
